@@ -6,11 +6,10 @@ import Dmn.Model.Dto
 /-!
 Driver handler for C18.
 
-* `(c18 jsonify <jv>)` → `((text (s …)) (decoded <json>|none) (expected <json>) (fixed (s …))
-  (fixeddecoded <json>|none) (noesc b) (numsok b))`
+* `(c18 jsonify <jv>)` → `((text (s …)) (decoded <json>|none) (expected <json>) (numsok b))`
 * `(c18 decode (s …))` → `<json>` | `none`
-* `(c18 serve <req>…)` → `((model <resp>…) (spec <resp>…))` — `model` = the handlers as the code
-  has them, `spec` = with the replace handler repaired.
+* `(c18 serve <req>…)` → `((model <resp>…))` — the answers of the handler model, each
+  `(<kind> (s body…) <json> <decodes?>)`.
 
 * `(c18 dto <tv> (<kind> (s text) (s canonical)|none)…)` → `((dto <json>) (back <tv>|none) (backdto <json>|none) (canonical b))`:
   the DTO of a typed value as `serde_json` writes it, and what reading it back gives; the
@@ -116,13 +115,6 @@ def respSexp (r : Resp) : Sexp :=
     | some _ => true
     | none => false
   .list [kind, Sexp.ofChars r.body, optJson (some r.json), Sexp.ofBool wf]
-
-def serveWith (h : State → Request JV → State × Resp) : State → List (Request JV) → List Resp
-  | _, [] => []
-  | s, r :: rs =>
-    let (s', a) := h s r
-    a :: serveWith h s' rs
-
 
 /-! ### DTOs -/
 
@@ -254,14 +246,10 @@ def handle (args : List Sexp) : String :=
     | none => "(error bad-value)"
     | some v =>
       let text := jsonify v
-      let fixed := jsonifyFixed v
       toString (Sexp.list [
         .list [.atom "text", Sexp.ofChars text],
         .list [.atom "decoded", optJson (Json.decode text)],
         .list [.atom "expected", jsonSexp (toJson v)],
-        .list [.atom "fixed", Sexp.ofChars fixed],
-        .list [.atom "fixeddecoded", optJson (Json.decode fixed)],
-        .list [.atom "noesc", Sexp.ofBool (noEscapeNeeded v)],
         .list [.atom "numsok", Sexp.ofBool (numbersOk v)]])
   | [.atom "decode", t] =>
     match Sexp.chars? t with
@@ -273,8 +261,7 @@ def handle (args : List Sexp) : String :=
     | some reqs =>
       let ev : String → String → JV → JV := fun _ _ v => v
       let m := (Server.serve codec ev WS.init reqs).2
-      let sp := serveWith (Server.handleFixed codec ev) WS.init reqs
-      toString (Sexp.list [.list (.atom "model" :: m.map respSexp), .list (.atom "spec" :: sp.map respSexp)])
+      toString (Sexp.list [.list (.atom "model" :: m.map respSexp)])
   | _ => "(error bad-request)"
 
 end Dmn.Driver.C18
